@@ -152,6 +152,7 @@ static RPBlockAccess vp_write8(uint32_t a, size_t n, const uint8_t *b) { return 
 static RPBlockAccess vp_read16(uint32_t a, size_t n, uint16_t *b) { return vp_backend(2, a, n, b); }
 static RPBlockAccess vp_write16(uint32_t a, size_t n, const uint16_t *b) { return vp_backend(3, a, n, (void *)b); }
 
+#ifndef VP_REAL_FRAMING /* integration instances link the real framing code instead */
 /* ------------------------------------------------------------- framing stubs */
 
 struct vp_rx_script {
@@ -284,6 +285,8 @@ ssize_t flenp_chunks_to_sink(const LengthPrefixKind k, Sink *sink, ByteChunks *o
     return vp_tx_err < 0 ? vp_tx_err : 1;
 }
 
+#endif /* !VP_REAL_FRAMING */
+
 /* ------------------------------------------------------ instance under test */
 
 static RegP vp_p;
@@ -378,6 +381,7 @@ static unsigned ref_encode(const struct ref_frame *f, uint8_t *out)
     return n + f->plen;
 }
 
+#ifndef VP_REAL_FRAMING
 /* did the library emit exactly frame f (header image + payload octets) through
  * the right framer? (payloads longer than four octets are read through the
  * recorded pointer: call this while that memory is alive) */
@@ -399,6 +403,8 @@ static bool tx_is(const struct vp_tx_frame *t, const struct ref_frame *f, bool t
     }
     return true;
 }
+
+#endif /* !VP_REAL_FRAMING */
 
 /* verdicts */
 #define REF_OK 0
